@@ -836,6 +836,8 @@ class Node:
         instance are removed as well.
         """
         if with_clones:
+            if keep_children:
+                self._check_keep_children(self.get_clones(add_self=True))
             for c in self.get_clones():  # Excluding self
                 if c._tree is None:
                     continue  # already removed as descendant of another clone
